@@ -354,3 +354,18 @@ func (tt *TypeTable) FieldOffset(st *types.Struct, idx int) int64 {
 	}
 	return off
 }
+
+// isAggregateTooLarge: aggregates that cannot be loaded/stored by value in one go.
+func (tt *TypeTable) isAggregateTooLarge(t types.Type) bool {
+	if a, ok := U(t).(*types.Array); ok && a.Len() > maxUnroll {
+		return true
+	}
+	if st, ok := U(t).(*types.Struct); ok {
+		for i := 0; i < st.NumFields(); i++ {
+			if tt.isAggregateTooLarge(st.Field(i).Type()) {
+				return true
+			}
+		}
+	}
+	return false
+}
